@@ -215,15 +215,16 @@ func MakeDID(seed int64) string {
 // Spec of one credential.
 type Spec struct {
 	Schema        *Schema   `json:"schema"`
-	Subject       any       `json:"subject"`              // nil = no id; string DID; anything else is written as is
-	SubjectNull   bool      `json:"subject_null"`         // "id": null
-	Expiration    *int64    `json:"expiration,omitempty"` // unix seconds
-	Omit          []string  `json:"omit,omitempty"`       // field paths left out
-	NoSubjectType bool      `json:"no_subject_type"`      // credentialSubject has no "type": the top-level type pair decides
-	TopTypes      []string  `json:"top_types,omitempty"`  // override of the top-level "type" array
-	Values        [5]string `json:"values"`               // price, count, name, insured, since ("" = default)
-	ExtraCtx      []string  `json:"extra_ctx,omitempty"`  // more context URLs
-	Undefined     bool      `json:"undefined,omitempty"`  // credentialSubject carries a property no context defines (merklizes only with safe mode off)
+	Subject       any       `json:"subject"`                 // nil = no id; string DID; anything else is written as is
+	SubjectNull   bool      `json:"subject_null"`            // "id": null
+	Expiration    *int64    `json:"expiration,omitempty"`    // unix seconds
+	Omit          []string  `json:"omit,omitempty"`          // field paths left out
+	NoSubjectType bool      `json:"no_subject_type"`         // credentialSubject has no "type": the top-level type pair decides
+	TopTypes      []string  `json:"top_types,omitempty"`     // override of the top-level "type" array
+	Values        [5]string `json:"values"`                  // price, count, name, insured, since ("" = default)
+	ExtraCtx      []string  `json:"extra_ctx,omitempty"`     // more context URLs
+	SubjectTypes  []string  `json:"subject_types,omitempty"` // credentialSubject.type written as this array instead of the type name
+	Undefined     bool      `json:"undefined,omitempty"`     // credentialSubject carries a property no context defines (merklizes only with safe mode off)
 	// AltSchema: the document a SECOND document loader serves at Schema.URL (same URL, type
 	// name and type IRI, other attribute).  nil = the second loader serves the same document.
 	AltSchema *Schema `json:"alt_schema,omitempty"`
@@ -249,7 +250,9 @@ func Build(sp Spec) (*Cred, error) {
 		omit[o] = true
 	}
 	cs := map[string]any{}
-	if !sp.NoSubjectType {
+	if sp.SubjectTypes != nil {
+		cs["type"] = sp.SubjectTypes
+	} else if !sp.NoSubjectType {
 		cs["type"] = sp.Schema.TypeName
 	}
 	if sp.SubjectNull {
